@@ -3,8 +3,8 @@ from __future__ import annotations
 from .common import cps
 
 VALUE_POOL = ['', 'x', 'X', 'xy', 'x y', 'y x', 'x-y', 'x-', ' x', 'x\ny', 'yx', 'Y', 'y']
-FLAGS = [('empty', 0x1), ('root', 0x2), ('scope', 0x10)]
-OTHER_FLAGS = 0x4 | 0x8 | 0x20 | 0x40 | 0x80 | 0x100 | 0x200 | 0x400
+FLAGS = [('empty', 0x1), ('root', 0x2), ('scope', 0x10), ('dir_ltr', 0x20), ('dir_rtl', 0x40)]
+OTHER_FLAGS = 0x4 | 0x8 | 0x80 | 0x100 | 0x200 | 0x400
 
 
 class OutOfModel(Exception):
@@ -38,8 +38,8 @@ def proj_list(ct, sl):
 def proj_sel(ct, s):
     if isinstance(s, ct.SelectorNull):
         return {'null': True}
-    if s.contains or s.lang or (s.flags & OTHER_FLAGS):
-        raise OutOfModel('contains / lang / state flags are outside Ir.tla')
+    if s.flags & OTHER_FLAGS:
+        raise OutOfModel('state flags (default, indeterminate, range, defined, placeholder) are outside Ir.tla')
     attrs = []
     for a in s.attributes:
         m = _mask(a.pattern)
@@ -50,4 +50,6 @@ def proj_sel(ct, s):
             'nth': [{'a': n.a, 'n': bool(n.n), 'b': n.b, 'of_type': bool(n.of_type), 'last': bool(n.last),
                      'selectors': proj_list(ct, n.selectors)} for n in s.nth],
             'selectors': [proj_list(ct, x) for x in s.selectors], 'relation': proj_list(ct, s.relation),
-            'rel_type': s.rel_type or '', 'flags': [n for n, b in FLAGS if s.flags & b]}
+            'rel_type': s.rel_type or '', 'flags': [n for n, b in FLAGS if s.flags & b],
+            'lang': [[cps(x) for x in l.languages] for l in s.lang],
+            'contains': [{'text': [cps(x) for x in c.text], 'own': bool(c.own)} for c in s.contains]}
